@@ -393,3 +393,153 @@ Proof.
   - destruct (alookup id (w_rnodes w)); reflexivity.
   - destruct (alookup id (w_rnodes w)); reflexivity.
 Qed.
+
+(* ---------------------------------------------------------------- contained handler panics (fix 242a7e8) *)
+
+(* a Modification whose handler is aborted after the operations of o: the invariant holds, every OTHER session and every
+   other session's rules are untouched, only driver calls tagged with this session's SEID were made, NO datagram leaves,
+   node table / free list / transaction tables are unchanged *)
+Theorem mod_abort_spec w seid o e s :
+  WInv w -> live w seid s ->
+  exists w' out, handle_mod_abort w seid IeAbsent o e = Ok (w', out) /\ WInv w' /\ wframe w w' seid /\
+    Forall (own_drv seid) out /\
+    w_heap w' = w_heap w /\ w_rnodes w' = w_rnodes w /\ w_free w' = w_free w /\ w_rx w' = w_rx w /\ w_tx w' = w_tx w /\
+    exists s1, live w' seid s1 /\ s_rid s1 = s_rid s /\ s_node s1 = s_node s.
+Proof.
+  intros HI HL. unfold handle_mod_abort. pose proof HL as HL0. apply lookup_found in HL0. rewrite HL0.
+  destruct (run_categories e o mod_order (mkCtx s (w_dp w) [])) as [[c rs]|] eqn:Ec.
+  2:{ exists w, []. split; [reflexivity|]. split; [assumption|]. split; [apply wframe_refl|]. split; [constructor|].
+      repeat (split; [reflexivity|]). exists s. auto. }
+  apply run_categories_good in Ec. cbn [fst] in Ec. destruct Ec as [[Fl Fr Fn Fo [o' [Eo Fo']]] HS]. cbn [c_s c_dp c_out] in *.
+  assert (Hlid : s_lid s = seid) by (eapply live_lid; eauto).
+  rewrite (put_slot_upd w seid s (c_s c) (c_dp c) HL) by congruence.
+  exists (upd_world w seid (c_s c) (c_dp c)), (c_out c). split; [reflexivity|].
+  assert (Hp : 1 <= seid) by (destruct HL; assumption).
+  split.
+  { eapply WInv_upd; eauto; [congruence | apply HS; eapply live_SOK; eauto | intros r Hr; apply Fo; congruence]. }
+  split; [apply wframe_upd; [assumption | intros r Hr; apply Fo; congruence]|].
+  split; [rewrite Eo; cbn; rewrite <- Hlid; exact Fo'|].
+  repeat (split; [reflexivity|]).
+  exists (c_s c). split; [apply (live_upd_same w seid s _ _ HL)|]. split; congruence.
+Qed.
+
+(* an Establishment aborted after the operations of o: either nothing happened, or exactly one fresh session exists
+   (non-zero SEID not in use before), every session that existed is untouched, only driver calls tagged with the new
+   SEID were made, no datagram leaves *)
+Theorem est_abort_spec w id rid o e ref :
+  WInv w -> alookup id (w_rnodes w) = Some ref ->
+  exists w' out, handle_est_abort w (IeVal id) (IeVal rid) o e = Ok (w', out) /\ WInv w' /\
+    (out = [] /\ w' = w \/
+     exists lid s1, lid <> 0 /\ (forall s', ~ live w lid s') /\ live w' lid s1 /\ s_rid s1 = rid /\ s_node s1 = ref /\
+       wframe w w' lid /\ Forall (own_drv lid) out).
+Proof.
+  intros HI Er. unfold handle_est_abort. rewrite Er.
+  destruct (rnodes_ref_valid _ _ _ HI Er) as [n Hn].
+  destruct (est_alloc_spec w rid ref n HI Hn) as [w2 [s [Ea AP]]].
+  unfold est_alloc in Ea. destruct (new_sess w rid ref) as [[w1 s1]|f]; [|discriminate].
+  inversion Ea; subst s1. clear Ea. rewrite H0. clear H0 w1.
+  pose proof (ap_inv _ _ _ _ _ AP) as HI2. pose proof (ap_live _ _ _ _ _ AP) as HL2.
+  destruct (run_categories e o est_order (mkCtx s (w_dp w2) [])) as [[c rs]|] eqn:Ec.
+  2:{ exists w, []. split; [reflexivity|]. split; [assumption|]. left. auto. }
+  apply run_categories_good in Ec. cbn [fst] in Ec. destruct Ec as [[Fl Fr Fn Fo [o' [Eo Fo']]] HS]. cbn [c_s c_dp c_out] in *.
+  rewrite (put_slot_upd w2 (s_lid s) s (c_s c) (c_dp c) HL2 Fl).
+  set (w3 := upd_world w2 (s_lid s) (c_s c) (c_dp c)).
+  assert (HI3 : WInv w3).
+  { eapply WInv_upd; eauto. apply HS. eapply live_SOK; eauto. }
+  exists w3, (c_out c). split; [reflexivity|]. split; [exact HI3|].
+  right. exists (s_lid s), (c_s c).
+  assert (Hrid : s_rid s = rid) by (rewrite (ap_shape _ _ _ _ _ AP); reflexivity).
+  assert (Hnode : s_node s = ref) by (rewrite (ap_shape _ _ _ _ _ AP); reflexivity).
+  split; [apply (ap_nz _ _ _ _ _ AP)|]. split; [apply (ap_fresh _ _ _ _ _ AP)|].
+  split; [apply (live_upd_same w2 (s_lid s) s _ _ HL2)|].
+  split; [congruence|]. split; [congruence|].
+  assert (Hp : 1 <= s_lid s) by (destruct HL2; assumption).
+  split.
+  { eapply wframe_trans; [|apply wframe_upd; [assumption | intros r Hr; apply Fo; exact Hr]].
+    constructor.
+    - apply (ap_others _ _ _ _ _ AP).
+    - intros r _. rewrite (ap_dp _ _ _ _ _ AP). tauto. }
+  rewrite Eo. cbn. exact Fo'.
+Qed.
+
+Lemma put_slot_rx w s w' : put_slot w s = Ok w' -> w_rx w' = w_rx w.
+Proof. unfold put_slot. destruct (slot_set _ _ _); [|discriminate]. intros H. inversion H; subst. reflexivity. Qed.
+
+Lemma new_sess_rx w rid ref w' s : new_sess w rid ref = Ok (w', s) -> w_rx w' = w_rx w.
+Proof.
+  unfold new_sess. destruct (rev (w_free w)).
+  - intros H. inversion H; subst. reflexivity.
+  - destruct (slot_set _ _ _); [|discriminate]. intros H. inversion H; subst. reflexivity.
+Qed.
+
+Lemma update_node_id_rx w ref id : w_rx (update_node_id w ref id) = w_rx w.
+Proof. unfold update_node_id. destruct (nth_error (w_heap w) ref); reflexivity. Qed.
+
+Lemma handle_est_abort_rx w nid fseid o e w' out : handle_est_abort w nid fseid o e = Ok (w', out) -> w_rx w' = w_rx w.
+Proof.
+  unfold handle_est_abort. destruct nid as [| |id]; try (intros H; inversion H; subst; reflexivity).
+  destruct (alookup id (w_rnodes w)); [|intros H; inversion H; subst; reflexivity].
+  destruct fseid as [| |rid]; try (intros H; inversion H; subst; reflexivity).
+  destruct (new_sess w rid n) as [[w1 s]|f] eqn:En; [|discriminate]. apply new_sess_rx in En.
+  match goal with |- context [run_categories e o est_order ?cx] => destruct (run_categories e o est_order cx) as [[c rs]|] end;
+    [|intros H; inversion H; subst; reflexivity].
+  match goal with |- context [put_slot ?wx ?sx] => destruct (put_slot wx sx) as [wb|f] eqn:Ep end; [|discriminate].
+  apply put_slot_rx in Ep. intros H. inversion H; subst. rewrite Ep. cbn. exact En.
+Qed.
+
+Lemma handle_mod_abort_rx w seid nid o e w' out : handle_mod_abort w seid nid o e = Ok (w', out) -> w_rx w' = w_rx w.
+Proof.
+  unfold handle_mod_abort. destruct (lookup (w_slots w) seid) as [[s|]|f]; [| |discriminate].
+  2:{ intros H; inversion H; subst; reflexivity. }
+  destruct nid as [| |id]; [|intros H; inversion H; subst; reflexivity|].
+  - destruct (run_categories e o mod_order _) as [[c rs]|]; [|intros H; inversion H; subst; reflexivity].
+    match goal with |- context [put_slot ?wx ?sx] => destruct (put_slot wx sx) as [wb|f] eqn:Ep end; [|discriminate].
+    apply put_slot_rx in Ep. intros H. inversion H; subst. rewrite Ep. reflexivity.
+  - destruct (run_categories e o mod_order _) as [[c rs]|]; [|intros H; inversion H; subst; reflexivity].
+    match goal with |- context [put_slot ?wx ?sx] => destruct (put_slot wx sx) as [wb|f] eqn:Ep end; [|discriminate].
+    apply put_slot_rx in Ep. intros H. inversion H; subst. rewrite Ep. cbn. apply update_node_id_rx.
+Qed.
+
+(* only driver calls come out of an aborted handler *)
+Lemma handle_est_abort_out w nid fseid o e w' out : handle_est_abort w nid fseid o e = Ok (w', out) -> Forall is_drv out.
+Proof.
+  unfold handle_est_abort. destruct nid as [| |id]; try (intros H; inversion H; subst; constructor).
+  destruct (alookup id (w_rnodes w)); [|intros H; inversion H; subst; constructor].
+  destruct fseid as [| |rid]; try (intros H; inversion H; subst; constructor).
+  destruct (new_sess w rid n) as [[w1 s]|f]; [|discriminate].
+  match goal with |- context [run_categories e o est_order ?cx] => destruct (run_categories e o est_order cx) as [[c rs]|] eqn:Ec end;
+    [|intros H; inversion H; subst; constructor].
+  apply run_categories_good in Ec. cbn [fst] in Ec. destruct Ec as [[Fl Fr Fn Fo [o' [Eo Fo']]] HS]. cbn [c_s c_dp c_out] in *.
+  match goal with |- context [put_slot ?wx ?sx] => destruct (put_slot wx sx) as [wb|f] end; [|discriminate].
+  intros H. inversion H; subst. rewrite Eo. cbn. eapply own_drv_is_drv. exact Fo'.
+Qed.
+
+Lemma handle_mod_abort_out w seid nid o e w' out : handle_mod_abort w seid nid o e = Ok (w', out) -> Forall is_drv out.
+Proof.
+  unfold handle_mod_abort. destruct (lookup (w_slots w) seid) as [[s|]|f]; [| |discriminate].
+  2:{ intros H; inversion H; subst; constructor. }
+  destruct nid as [| |id]; [|intros H; inversion H; subst; constructor|].
+  - destruct (run_categories e o mod_order _) as [[c rs]|] eqn:Ec; [|intros H; inversion H; subst; constructor].
+    apply run_categories_good in Ec. cbn [fst] in Ec. destruct Ec as [[Fl Fr Fn Fo [o' [Eo Fo']]] HS]. cbn [c_s c_dp c_out] in *.
+    match goal with |- context [put_slot ?wx ?sx] => destruct (put_slot wx sx) as [wb|f] end; [|discriminate].
+    intros H. inversion H; subst. rewrite Eo. cbn. eapply own_drv_is_drv. exact Fo'.
+  - destruct (run_categories e o mod_order _) as [[c rs]|] eqn:Ec; [|intros H; inversion H; subst; constructor].
+    apply run_categories_good in Ec. cbn [fst] in Ec. destruct Ec as [[Fl Fr Fn Fo [o' [Eo Fo']]] HS]. cbn [c_s c_dp c_out] in *.
+    match goal with |- context [put_slot ?wx ?sx] => destruct (put_slot wx sx) as [wb|f] end; [|discriminate].
+    intros H. inversion H; subst. rewrite Eo. cbn. eapply own_drv_is_drv. exact Fo'.
+Qed.
+
+(* whatever the aborted request was: the receive transaction is left WITHOUT a cached answer, so every retransmission
+   of it is ignored (C06's duplicate theorem applies), and nothing but driver calls came out *)
+Theorem abort_leaves_unanswered_transaction w peer seq m e w' out :
+  is_request m = true -> klookup (peer, seq) (w_rx w) = None ->
+  step w (EvRecvAbort peer seq m e) = Ok (w', out) ->
+  klookup (peer, seq) (w_rx w') = Some None /\ Forall is_drv out.
+Proof.
+  intros Hq Hk. cbn [step]. rewrite Hq. unfold recv_request_abort. rewrite Hk.
+  set (w0 := set_rx (kset (peer, seq) None (w_rx w)) w).
+  assert (K0 : klookup (peer, seq) (w_rx w0) = Some None) by (unfold w0; cbn; apply klookup_kset_same).
+  destruct m; try (intros H; inversion H; subst; split; [exact K0 | constructor]).
+  - intros H. split; [rewrite (handle_est_abort_rx _ _ _ _ _ _ _ H); exact K0 | eapply handle_est_abort_out; exact H].
+  - intros H. split; [rewrite (handle_mod_abort_rx _ _ _ _ _ _ _ H); exact K0 | eapply handle_mod_abort_out; exact H].
+Qed.
